@@ -32,6 +32,7 @@ type claim struct {
 	From    string `json:"from,omitempty"`
 	Carrier string `json:"carrier"` // packet | compound | compress | pp | ppjoin
 	SleepNs int64  `json:"sleep_before_ns,omitempty"`
+	async   bool   // deliver from a helper goroutine (no synctest.Wait inside)
 }
 
 func rankOf(kind string) int {
@@ -108,6 +109,10 @@ func (rig *Rig) deliver(c claim, via *FakePeer) error {
 		if c.Kind != ckAlive {
 			// non-alive entries still carry the address the reporter knows
 			entry.Vsn = DefaultVsn()
+		}
+		if c.async {
+			via.PushPullBlocking(c.Carrier == "ppjoin", []WPushNodeState{via.Self(1), entry}, nil)
+			return nil
 		}
 		_, _, err := via.PushPull(c.Carrier == "ppjoin", []WPushNodeState{via.Self(1), entry}, nil)
 		return err
